@@ -266,7 +266,8 @@ func (g *Gen) Request(c int) *wire.Req {
 		}
 	case "signedLatency":
 		r.N1 = []uint32{0, 2, 3, 3, 4, 5, 6, 50, 51, 60, 4294967295}[g.rnd.Intn(11)]
-		r.Str = []string{"", "0xabc", "0xabc", "wallet"}[g.rnd.Intn(4)]
+		// what is signed must be what was sent, white space included
+		r.Str = []string{"", "0xabc", "0xabc", "wallet", " 0xabc", "0xabc\n", "  ", "0x ab c"}[g.rnd.Intn(8)]
 	case "join":
 		var live []int
 		for s := range k.sids {
